@@ -38,9 +38,25 @@ def workflow():
             'outputs': {'success': tmap({'all': ref('input'), 'i': ref('input.i'), 'b': ref('steps.b.outputs.success.tok')})}}
 
 
+EMPTY_SCHEMA = {'root': 'RootObject', 'objects': {'RootObject': {'id': 'RootObject', 'properties': {}}}}
+
+
+def workflow_empty():
+    """a workflow whose input object declares no property: the only valid input document is the empty map"""
+    return {'input_schema': EMPTY_SCHEMA,
+            'steps': {'a': {'kind': 'plugin', 'pstep': 'work', 'fields': {'input': tmap({'id': lit('a')})}}},
+            'outputs': {'success': tmap({'r': ref('steps.a.outputs.success.tok')})}}
+
+
 def doc_yaml(d):
+    if d.get('w') == 'list':
+        return '- a\n- b\n'
+    if d.get('w') == 'scalar':
+        return 'hello\n'
     v = {}
     for f, k in d.items():
+        if f in ('w', 'schema'):
+            continue
         if k != 'absent':
             v['zz_surplus' if f == 'x' else f] = YAMLV[f][k]
     return vlib.render_value(v, 0).lstrip('\n') if v else '{}\n'
@@ -83,12 +99,17 @@ def run(ctx):
     docs = []
     seen = set()
     # all single-field deviations from a valid base document, then random combinations
-    base = {'s': 'str', 'i': 'num', 'b': 'true', 'l': 'nums', 'o': 'full', 'x': 'absent'}
+    base = {'s': 'str', 'i': 'num', 'b': 'true', 'l': 'nums', 'o': 'full', 'x': 'absent', 'w': 'map', 'schema': 'full'}
     for f, ks in KINDS.items():
         for k in ks:
             docs.append(dict(base, **{f: k}))
+    docs += [dict(base, w='list'), dict(base, w='scalar')]
+    # the schema without properties: the empty map, one surplus key of each kind, and non-map documents
+    ebase = {'s': 'absent', 'i': 'absent', 'b': 'absent', 'l': 'absent', 'o': 'absent', 'x': 'absent', 'w': 'map', 'schema': 'empty'}
+    docs += [dict(ebase), dict(ebase, x='present'), dict(ebase, s='str'), dict(ebase, i='num'), dict(ebase, l='nums'), dict(ebase, o='min'),
+             dict(ebase, w='list'), dict(ebase, w='scalar')]
     while len(docs) < n:
-        docs.append({f: rng.choice(ks) if rng.random() < 0.35 else base[f] for f, ks in KINDS.items()})
+        docs.append(dict({f: rng.choice(ks) if rng.random() < 0.35 else base[f] for f, ks in KINDS.items()}, w='map', schema='full'))
     docs = [d for d in docs if not (json.dumps(d, sort_keys=True) in seen or seen.add(json.dumps(d, sort_keys=True)))]
     # oracle
     dpath = os.path.join(ctx.work, 'docs.json')
@@ -105,10 +126,11 @@ def run(ctx):
         return
     st = vlib.tlc_stats(out)
     ctx.cov(states=st.get('distinct', 0), transitions=st.get('generated', 0))
-    wf = workflow()
+    wfs = {'full': workflow(), 'empty': workflow_empty()}
     binary = ctx.binary()
     scs = []
     for d in docs:
+        wf = wfs[d['schema']]
         sc = gen.make_scenario(wf, {}, {}, gen.noise_schedule(rng), timeout_ms=20000)
         sc['engine'] = True
         sc['runs'] = [{'input_yaml': doc_yaml(d)}]
@@ -132,6 +154,8 @@ def run(ctx):
         rr = res['runs'][0]
         evs = vlib.read_trace(r['trace'])
         deployed = [e for e in evs if e['ev'] == 'XDeployBegin' and e.get('phase') == 'run']
+        wf = wfs[d['schema']]
+        wf = wfs[d['schema']]
         tag = ','.join('%s=%s' % (f, k) for f, k in sorted(d.items()) if k != base[f]) or 'base'
         if not valid:
             if not rr['is_err']:
